@@ -607,10 +607,22 @@ theorem cmpCase56_spec (B : Nat) (hB : 2 ≤ B) (digitsUb : Int → Nat)
     · rename_i h; exact (fcmp3_dominate_right B _ hB s1 e1 s2 e2 hs2 hsame (pow_succ_bound B hB _ _ (hub s1)) h).symm
     · rfl
 
+/-- the clamped digit bound from the unclamped one plus "fewer than 2^63 + 1 digits" -/
+theorem fits_min (B n p : Nat) (h1 : n < B ^ (p + 1)) (h2 : n < B ^ (cmpIsizeMax + 1)) :
+    n < B ^ (min p cmpIsizeMax + 1) := by
+  rcases Nat.le_total p cmpIsizeMax with h | h
+  · rw [Nat.min_eq_left h]; exact h1
+  · rw [Nat.min_eq_right h]; exact h2
+
+/-- below the clamp nothing changes -/
+theorem fits_min_of_le (B n p : Nat) (hp : p ≤ cmpIsizeMax) (h1 : n < B ^ (p + 1)) :
+    n < B ^ (min p cmpIsizeMax + 1) := by
+  rw [Nat.min_eq_left hp]; exact h1
+
 theorem cmpCase4_spec (B : Nat) (hB : 2 ≤ B) (s1 e1 s2 e2 : Int) (hs1 : s1 ≠ 0) (hs2 : s2 ≠ 0)
     (hsame : (s1 < 0) ↔ (s2 < 0)) (prec : Option (Nat × Nat))
     (hprec : ∀ lp rp, prec = some (lp, rp) →
-      (lp ≠ 0 → s1.natAbs < B ^ (lp + 1)) ∧ (rp ≠ 0 → s2.natAbs < B ^ (rp + 1)))
+      (lp ≠ 0 → s1.natAbs < B ^ (min lp cmpIsizeMax + 1)) ∧ (rp ≠ 0 → s2.natAbs < B ^ (min rp cmpIsizeMax + 1)))
     (o : Ordering) (h : cmpCase4 (decide (s1 < 0)) e1 e2 prec = some o) :
     o = cmpCase6 B s1 e1 s2 e2 := by
   cases prec with
@@ -624,11 +636,11 @@ theorem cmpCase4_spec (B : Nat) (hB : 2 ≤ B) (s1 e1 s2 e2 : Int) (hs1 : s1 ≠
       split at h
       · rename_i hc
         cases h
-        exact (fcmp3_dominate_left B rp hB s1 e1 s2 e2 hs1 hsame (hp2 hnz.2) hc).symm
+        exact (fcmp3_dominate_left B (min rp cmpIsizeMax) hB s1 e1 s2 e2 hs1 hsame (hp2 hnz.2) hc).symm
       · split at h
         · rename_i hc
           cases h
-          exact (fcmp3_dominate_right B lp hB s1 e1 s2 e2 hs2 hsame (hp1 hnz.1) hc).symm
+          exact (fcmp3_dominate_right B (min lp cmpIsizeMax) hB s1 e1 s2 e2 hs2 hsame (hp1 hnz.1) hc).symm
         · cases h
     · cases h
 
@@ -636,7 +648,7 @@ theorem cmp_tail_spec (B : Nat) (hB : 2 ≤ B) (digitsUb : Int → Nat)
     (hub : ∀ s : Int, s.natAbs < B ^ digitsUb s) (s1 e1 s2 e2 : Int) (hs1 : s1 ≠ 0) (hs2 : s2 ≠ 0)
     (hsame : (s1 < 0) ↔ (s2 < 0)) (prec : Option (Nat × Nat))
     (hprec : ∀ lp rp, prec = some (lp, rp) →
-      (lp ≠ 0 → s1.natAbs < B ^ (lp + 1)) ∧ (rp ≠ 0 → s2.natAbs < B ^ (rp + 1))) :
+      (lp ≠ 0 → s1.natAbs < B ^ (min lp cmpIsizeMax + 1)) ∧ (rp ≠ 0 → s2.natAbs < B ^ (min rp cmpIsizeMax + 1))) :
     (match cmpCase4 (decide (s1 < 0)) e1 e2 prec with
       | some o => o
       | none => cmpCase56 B digitsUb (decide (s1 < 0)) s1 e1 s2 e2) = cmpCase6 B s1 e1 s2 e2 := by
@@ -648,12 +660,16 @@ theorem cmp_tail_spec (B : Nat) (hB : 2 ≤ B) (digitsUb : Int → Nat)
     PROVIDED each operand's significand has at most `precision + 1` digits whenever a non-zero
     precision is supplied (what the arithmetic guarantees: C03 "no result carries more than p+1
     significant digits"; the strict `>` of the shortcut leaves exactly this one digit of slack), and
-    for ANY digit estimator that is an upper bound. -/
+    for ANY digit estimator that is an upper bound.  Since /repo ee43486 the code clamps each precision to
+    `isize::MAX` before the shortcut, so the digit bound reads `min precision isize::MAX + 1`: for every precision
+    `≤ isize::MAX` that is the old `precision + 1`; above it, it says "at most 2^63 digits", which every significand
+    that fits a 64-bit address space satisfies (the Nat/usize gap of the model — `fits_min` splits it that way). -/
 theorem reprCmpSameBase_spec (B : Nat) (hB : 2 ≤ B) (digitsUb : Int → Nat)
     (hub : ∀ s : Int, s.natAbs < B ^ digitsUb s)
     (lhs rhs : FRepr) (prec : Option (Nat × Nat))
     (hprec : ∀ lp rp, prec = some (lp, rp) →
-      (lp ≠ 0 → lhs.signif.natAbs < B ^ (lp + 1)) ∧ (rp ≠ 0 → rhs.signif.natAbs < B ^ (rp + 1))) :
+      (lp ≠ 0 → lhs.signif.natAbs < B ^ (min lp cmpIsizeMax + 1)) ∧
+      (rp ≠ 0 → rhs.signif.natAbs < B ^ (min rp cmpIsizeMax + 1))) :
     reprCmpSameBase B digitsUb lhs rhs prec = specFCmp B lhs rhs := by
   unfold reprCmpSameBase
   by_cases hli : lhs.isInfinite = true
